@@ -58,6 +58,9 @@ class Wire:
             self.pre = 0
 
     def _feed(self, n):
+        if self.stall and self.stall.get('hold') and not self.stalled:
+            # nothing beyond the stall point arrives before the stall is over (neither by a wait nor by the arrival schedule)
+            n = min(n, max(0, self.stall['after'] - self.delivered))
         seg, self.remaining = self.remaining[:n], self.remaining[n:]
         if seg:
             self.delivered += len(seg)
@@ -71,6 +74,9 @@ class Wire:
 
     def wait(self):
         n = self.sizes.pop(0) if self.sizes else 1
+        if self.stall and self.stall.get('hold') and not self.stalled and self.remaining and \
+                self.delivered < self.stall['after'] < self.delivered + n:
+            self.sizes.insert(0, self.delivered + n - self.stall['after'])   # the part of this segment beyond the stall point comes later
         if self.remaining:
             self._feed(n)
         else:
@@ -313,7 +319,7 @@ def run_visit(case, loop):
     request.password = case.get('req_pass')
     if case.get('restart') is not None:
         request.set_continue(case['restart'])
-    ctrl_wire = Wire(ctrl_bytes, case['ctrl_segs'])
+    ctrl_wire = Wire(ctrl_bytes, case['ctrl_segs'], stall=case.get('ctrl_stall'))
     data_wire = Wire(data_bytes, case['data_segs'], stall=case.get('stall'))
     net = Net(case.get('net') or [], ctrl_wire, data_wire)
     ctrl = FakeConnection(('127.0.0.1', 21), ctrl_wire, log, 'c', limit, net)
